@@ -310,6 +310,34 @@ static struct dt_d_s
 dround_ddur(struct dt_d_s d, struct dt_ddur_s dur, bool nextp)
 {
 	switch (dur.durtyp) {
+	case DT_DURD:
+	case DT_DURQU:
+	case DT_DURMO:
+	case DT_DURYMD:
+		/* day-of-month and month targets are worked out on ymd dates,
+		 * values in other calendars go there and back again,
+		 * just like weekday targets go via daisy */
+		switch (d.typ) {
+			struct dt_d_s tmp;
+		case DT_YMCW:
+		case DT_YWD:
+		case DT_YD:
+		case DT_DAISY:
+		case DT_JDN:
+		case DT_LDN:
+		case DT_MDN:
+			tmp = dt_dconv(DT_YMD, d);
+			tmp = dround_ddur(tmp, dur, nextp);
+			return dt_dconv(d.typ, tmp);
+		default:
+			break;
+		}
+		break;
+	default:
+		break;
+	}
+
+	switch (dur.durtyp) {
 		unsigned int tgt;
 		bool forw;
 	case DT_DURD:
